@@ -152,17 +152,17 @@ type pipeHit struct {
 var routeSeq int
 
 type routeInst struct {
-	n       int
-	parts   []tmplPart
-	schema  base.LogSchema
-	orch    base.Orchestrator
-	sink    base.BufferReceiverSink
-	pipes   []*pipeRec
-	hits    chan pipeHit
-	pcount  *base.LogProcessCounterSet
-	mseen   []*base.LogInputCounterSet
-	alloc   *base.LogAllocator
-	recSeq  int
+	n      int
+	parts  []tmplPart
+	schema base.LogSchema
+	orch   base.Orchestrator
+	sink   base.BufferReceiverSink
+	pipes  []*pipeRec
+	hits   chan pipeHit
+	pcount *base.LogProcessCounterSet
+	mseen  []*base.LogInputCounterSet
+	alloc  *base.LogAllocator
+	recSeq int
 }
 
 // pooledRecord builds a record the way the parser does: the field values are substrings of one pooled backing buffer
